@@ -395,15 +395,18 @@ def op_parse_xml_tree(docname, data, clazz_key, handler, needs, group):
 
     def fn(env, fault):
         p = env.tool(tool)
-        if handler == "lxml":
-            from lxml import etree
 
-            source = etree.fromstring(data).getroottree()
-        else:
+        def build():
+            if handler == "lxml":
+                from lxml import etree
+
+                return etree.fromstring(data).getroottree()
             import xml.etree.ElementTree as ET
 
-            source = ET.fromstring(data)
-        return p.parse(source, _resolve_clazz(clazz_key))
+            return ET.fromstring(data)
+
+        # a caller that keeps its tree passes the same tree again (SHARED_INPUTS)
+        return p.parse(_input(("tree", handler, docname), build), _resolve_clazz(clazz_key))
 
     return Op(f"parse_xml:{handler}:{docname}:treesrc", "parse_xml", fn, tool, needs, (), group, docname)
 
